@@ -627,21 +627,44 @@ def r00_helper_semantics(ctx):
     # select(order=...) dispatches to the sorter of the same name, applied to the list selected by state
     sel = repo.func('droop.candidates.Candidates.select')
     disp = {}
-    for s_ in sel.own_nodes():
-        if isinstance(s_, ast.If) and isinstance(s_.test, ast.Compare) and unparse(s_.test.left) == 'order' and s_.body and isinstance(s_.body[0], ast.Return):
-            v = s_.body[0].value
-            if isinstance(v, ast.Name):
-                disp[const_str(s_.test.comparators[0])] = ('identity', v.id)
-            elif isinstance(v, ast.Call) and isinstance(v.func, ast.Attribute) and unparse(v.func.value) == 'self' and len(v.args) == 1 \
-                    and isinstance(v.args[0], ast.Name) and [(k.arg, unparse(k.value)) for k in v.keywords] == [('reverse', 'reverse')]:
-                disp[const_str(s_.test.comparators[0])] = (v.func.attr, v.args[0].id)
+    lists = set()
+    from ..symret import guarded_returns
+    gr = guarded_returns(sel.node)
+    ordp = sel.params[2] if len(sel.params) > 2 else 'order'
+    revp = sel.params[3] if len(sel.params) > 3 else 'reverse'
+    if gr is None:
+        ctx.unrecognised(R, sel.node, sel, 'the order dispatch of Candidates.select', 'the body is not a branching of returns')
+    else:
+        # every path that returns: which order literal it is taken for (conditions `order == <literal>` that hold), and what it returns
+        for conds, e, _r in gr:
+            key = None
+            for t_, tr_ in conds:
+                if tr_ and isinstance(t_, ast.Compare) and len(t_.ops) == 1 and isinstance(t_.ops[0], ast.Eq) and isinstance(t_.left, ast.Name) \
+                        and t_.left.id == ordp and const_str(t_.comparators[0]) is not None:
+                    key = const_str(t_.comparators[0])
+            if key is None:
+                key = '<other>'
+            if e is None:
+                val = ('?', 'returns nothing')
+            elif isinstance(e, ast.Call) and isinstance(e.func, ast.Attribute) and unparse(e.func.value) == 'self' and len(e.args) == 1 \
+                    and [(k.arg, unparse(k.value)) for k in e.keywords] == [('reverse', revp)] and e.func.attr.startswith('by'):
+                inner = e.args[0]
+                nested_sort = isinstance(inner, ast.Call) and isinstance(inner.func, ast.Attribute) and inner.func.attr.startswith('by')
+                val = (e.func.attr if not nested_sort else '?', 'sorted')
+            elif isinstance(e, ast.Call) and isinstance(e.func, ast.Attribute) and e.func.attr.startswith('by'):
+                val = ('?', unparse(e)[:60])
+            elif isinstance(e, ast.Call) and isinstance(e.func, ast.Name) and e.func.id in ('sorted', 'reversed'):
+                val = ('?', unparse(e)[:60])
             else:
-                disp[const_str(s_.test.comparators[0])] = ('?', unparse(v))
-    lists = set(x[1] for x in disp.values())
+                val = ('identity', 'unsorted')
+            disp.setdefault(key, set()).add(val[0])
+        lists = {1}
+    disp = {k: (sorted(v)[0] if len(v) == 1 else '?', '') for k, v in disp.items() if k != '<other>' or v != {'identity'}}
     want = {'none': 'identity', 'ballot': 'byBallotOrder', 'tie': 'byTieOrder', 'vote': 'byVote'}
     n += 1
-    ctx.check({k: v[0] for k, v in disp.items()} == want and len(lists) == 1, R, sel.node, sel, 'select(order=x) sorts with the sorter named x',
-              str({k: v[0] for k, v in disp.items()}), 'select() dispatch is %s' % disp)
+    if gr is not None:
+        ctx.check({k: v[0] for k, v in disp.items()} == want and len(lists) == 1, R, sel.node, sel, 'select(order=x) sorts with the sorter named x',
+                  str({k: v[0] for k, v in disp.items()}), 'select() dispatch is %s' % {k: v[0] for k, v in disp.items()})
     # Candidate helpers
     expect('droop.candidate.Candidate.zeroVote', 'def f(self):\n self.vote = self.E.V0', 'Candidate.zeroVote does what its name says')
     expect('droop.candidate.Candidate.addVote', 'def f(self, addValue):\n self.vote += addValue', 'Candidate.addVote does what its name says')
